@@ -150,7 +150,11 @@ func vC09[T vFC]() {
 	var opts []FuncOpt
 	if mode == "reuse" || mode == "incr" {
 		ds := rshape
-		d, dw = vMkOperand[T]("d", ds, "C")
+		ld := vCfgStr("ld")
+		if ld == "" || !vLayoutOK(ds, ld) {
+			ld = "C"
+		}
+		d, dw = vMkOperand[T]("d", ds, ld) // (ld = T: a destination that carries a pending lazy transposition)
 		if mode == "reuse" {
 			opts = append(opts, WithReuse(d))
 		} else {
@@ -209,7 +213,9 @@ func vC09[T vFC]() {
 	if err != nil {
 		// refusing loudly is acceptable only where the layout is not a plain / lazily transposed / column-major tensor
 		// a loud refusal is acceptable for any combination except plain contiguous operands
-		plain := la == "C" && (lb == "C" || b == nil) && !(vIsComplex[T]() && mode == "incr" && vCfgStr("api") == "dot")
+		// (Dot refuses complex increments and TensorMul refuses complex operands altogether - "getFloatDense only handles
+		// floats": loud refusals of an unsupported element type, accepted)
+		plain := la == "C" && (lb == "C" || b == nil) && !(vIsComplex[T]() && mode == "incr" && vCfgStr("api") == "dot") && !(vIsComplex[T]() && routine == "TensorMul") && (vCfgStr("ld") == "" || vCfgStr("ld") == "C")
 		if vCfgStr("api") == "dot" {
 			// Dot dispatches (n,1)/(1,n) matrices as vectors; what it then refuses is refused loudly
 			for _, d := range append(vCopyInts(sa), sb...) {
@@ -284,6 +290,34 @@ func vC09[T vFC]() {
 	vC09Unchanged(a, aw, sa, "operand-a-unchanged")
 	if b != nil {
 		vC09Unchanged(b, bw, sb, "operand-b-unchanged")
+	}
+	// chained use: the destination of a reuse product is an ordinary tensor afterwards - a second product with it as the
+	// left operand computes from what was just delivered (no stale transposition or view record may survive in it)
+	if vCfgInt("chain") == 1 && mode == "reuse" && d != nil && len(rshape) == 2 {
+		v, vw := vMkOperand[T]("v", []int{rshape[1]}, "C")
+		var r2 *Dense
+		var err2 error
+		pan2 := vCatch(func() { r2, err2 = d.MatVecMul(v) })
+		vAssert(!pan2, "chain-no-panic")
+		if pan2 {
+			return
+		}
+		vAssert(err2 == nil, "chain-no-error")
+		if err2 != nil || r2 == nil {
+			return
+		}
+		g2 := vSnapshot[T](r2)
+		vAssert(len(g2) == rshape[0], "chain-shape")
+		if len(g2) != rshape[0] {
+			return
+		}
+		for i := 0; i < rshape[0]; i++ {
+			var s T
+			for j := 0; j < rshape[1]; j++ {
+				s += want[i*rshape[1]+j] * vw[j]
+			}
+			vAssert(g2[i] == s, "chain-sum-of-products")
+		}
 	}
 }
 
